@@ -311,7 +311,7 @@ class Suite:
     """One correspondence suite: a Go harness + an OCaml model runner."""
 
     def __init__(self, name, harness, runner, model_deps, quick_n, thorough_n, godev=False,
-                 rule="", rewrite=None, extra_args=None, timeout=1500, race=False, tags="verif"):
+                 rule="", rewrite=None, extra_args=None, timeout=1500, race=False, tags="verif", coq_replay=None):
         self.name = name
         self.harness = harness
         self.runner = runner
@@ -322,6 +322,7 @@ class Suite:
         self.rule = rule
         self.rewrite = rewrite
         self.extra_args = extra_args or []
+        self.coq_replay = coq_replay  # optional: pylib/coqreplay generator (lines, n) -> (.v source, cases)
         self.timeout = timeout
         self.race = race
         self.tags = tags
@@ -455,6 +456,22 @@ def run_check(spec, tier, seed, replay=None):
             stats_total["distinct_nontrivial"] += st["distinct_nontrivial"]
             stats_total["samples"] += st["samples"][:3]
             lines = cases.read_text().splitlines()
+            if s.coq_replay and not diffs:
+                # the same observations against the model evaluated INSIDE Coq (kernel VM): independent of the
+                # extraction and of the OCaml glue
+                src, ncases = s.coq_replay(lines, 1200 if tier == "thorough" else 120)
+                if src:
+                    rv = copy / ".." / ("Replay_%s.v" % s.name)
+                    rv.write_text(src)
+                    tr = time.time()
+                    with build_lock():
+                        rc, outr = sh(["coqc", "-Q", str(COQ / "theories"), "Tele", str(rv)], cwd=copy / "..", timeout=1800)
+                    m = re.search(r"bad\s*=\s*(\[[^\]]*\])", outr)
+                    info["coq_replay"] = {"cases": ncases, "seconds": round(time.time() - tr, 1),
+                                          "disagreeing": m.group(1) if m else None, "ok": rc == 0 and bool(m) and m.group(1).replace(" ", "") == "[]"}
+                    if not info["coq_replay"]["ok"]:
+                        corr_broken = corr_broken or {"suite": s.name, "error": "in-Coq replay (vm_compute of the model itself on the implementation's "
+                                                      "observations) disagrees or failed: %s\n%s" % (info["coq_replay"]["disagreeing"], outr[-1500:])}
             kf = [k for k in known_findings() if k["property"] == pid]
             seen_known = set()
             for p in props:
